@@ -24,6 +24,11 @@ import common
 ID = "C10"
 LEAN_MODULES = ["QProps.C10"]
 THEOREMS = [
+    "Ops.move_uses_given_operation",
+    "Ops.default_operation_only_when_none",
+    "Ops.composite_nil_zero",
+    "Ops.pinned_replaces_empty_composite",
+    "Ops.pinned_agrees_elsewhere",
     "Ops.moveLoop_mem",
     "Ops.moveLoop_bound",
     "Ops.ball_move_norm",
@@ -1046,5 +1051,91 @@ class MoveRetry(common.Suite):
         return f"retry:{case['op']['kind']}:vetoed={v}:{'n=1' if len(case['moving']) == 1 else 'n>1'}"
 
 
+class OperationHandedOver(common.Suite):
+    """a move applies the operation it was GIVEN — whichever it is, also a composite of no parts (whose sum is zero) —
+    and falls back to its default operation only when none was given (model: `Ops.chosenOp`, theorems
+    `move_uses_given_operation`, `composite_nil_zero`; oracle only: there is nothing to compute)"""
+
+    name = "operation-handed-over"
+
+    def cases(self, rng, tier):
+        reps = 3 if tier == "quick" else 30
+        for _ in range(reps):
+            for move in ["disp", "hdisp", "cell", "exch"]:
+                for nparts in [None, 0, 1, 2, 3]:
+                    yield {"move": move, "nparts": nparts, "seed": rng.randrange(1 << 30), "natoms": rng.choice([1, 2, 4])}
+
+    def real(self, case):
+        import numpy as np
+        import quansino.mc  # noqa: F401
+        from ase import Atoms
+        from quansino.mc.contexts import DeformationContext, DisplacementContext
+        from quansino.moves.cell import CellMove
+        from quansino.moves.displacement import DisplacementMove, HamiltonianDisplacementMove
+        from quansino.moves.exchange import ExchangeMove
+        from quansino.operations.cell import IsotropicDeformation
+        from quansino.operations.composite import CompositeOperation
+        from quansino.operations.displacement import Ball, Box, Translation
+
+        n = case["natoms"]
+        rs = np.random.default_rng(case["seed"])
+        atoms = Atoms(f"Cu{n}", positions=rs.uniform(0, 5, (n, 3)), cell=[6.0, 6.0, 6.0], pbc=True)
+        kind = case["move"]
+        parts_pool = [IsotropicDeformation(0.05)] * 3 if kind == "cell" else [Ball(0.3), Box(0.2), Translation()]
+        op = None if case["nparts"] is None else CompositeOperation(parts_pool[:case["nparts"]])
+        try:
+            if kind == "disp":
+                move = DisplacementMove(np.arange(n), operation=op)
+            elif kind == "hdisp":
+                move = HamiltonianDisplacementMove(np.arange(n), operation=op)
+            elif kind == "cell":
+                move = CellMove(operation=op)
+            else:
+                move = ExchangeMove(np.arange(n), operation=op)
+        except Exception as e:  # noqa: BLE001
+            return {"exception": type(e).__name__, "message": str(e)[:200]}
+        out = {"given": op is not None, "kept": move.operation is op,
+               "default_kind": type(move.operation).__name__ if op is None else None}
+        if kind == "disp" and op is not None:
+            rng = np.random.default_rng(case["seed"] + 1)
+            ref = np.random.default_rng(case["seed"] + 1)
+            ctx = DisplacementContext(atoms, rng)
+            before = atoms.get_positions()
+            move.check_move = lambda *_a, **_k: True
+            move.to_displace_labels = 0        # pre-selected particle: every draw belongs to the operation
+            try:
+                ok = move(ctx)
+            except Exception as e:  # noqa: BLE001
+                return {**out, "exception": type(e).__name__, "message": str(e)[:200]}
+            d = atoms.get_positions() - before
+            out["ok"] = bool(ok)
+            out["moved"] = float(np.abs(d).max())
+            # the draws the GIVEN operation needs on the selected particle, replayed on a twin generator
+            twin = Atoms(f"Cu{n}", positions=before, cell=[6.0, 6.0, 6.0], pbc=True)
+            tctx = DisplacementContext(twin, ref)
+            tctx._moving_indices = np.array([0])
+            want = op.calculate(tctx)
+            exp = np.zeros_like(before)
+            exp[tctx._moving_indices] = want
+            out["as_given"] = float(np.abs(d - exp).max())
+        return out
+
+    def oracle(self, case, obs):
+        out = []
+        tag = f"{case['move']}:parts={case['nparts']}"
+        if "exception" in obs:
+            out.append((f"handover:exception:{tag}:{obs['exception']}", obs["message"]))
+            return out
+        if obs["given"] and not obs["kept"]:
+            out.append((f"handover:given-operation-replaced:{tag}", "move.operation is not the operation object passed to the constructor"))
+        if obs.get("as_given", 0.0) > 1e-12:
+            out.append((f"handover:displacement-is-not-the-given-operations:{tag}",
+                        f"the move displaced by something {obs['as_given']:.3g} away from what the given operation computes (moved {obs['moved']:.3g})"))
+        return out
+
+    def classify(self, case, obs):
+        return f"{case['move']}:parts={case['nparts']}"
+
+
 def suites(tier):
-    return [DisplacementOps(), DeformationOps(), ProposalSymmetry(), MoveRetry()]
+    return [DisplacementOps(), DeformationOps(), ProposalSymmetry(), MoveRetry(), OperationHandedOver()]
